@@ -164,6 +164,9 @@ func (m *Mapping) Validate(vr *ValidationResults) {
 }
 
 func (a *Account) AddMapping(sub Subject, to ...WeightedMapping) {
+	if a.Mappings == nil {
+		a.Mappings = Mapping{}
+	}
 	a.Mappings[sub] = to
 }
 
